@@ -36,9 +36,18 @@ def gen_dir(rng, feats):
                 elif r < 0.22:
                     lines[i] = pre + " " * rng.randint(1, 3) + body
                     feats.add("irregular_spacing")
+                elif r < 0.25 and i + 1 < len(lines) and lines[i + 1].startswith("  "):
+                    # the create date is the only word of the first line of a multi-line item
+                    lines[i] = pre + "%04d-%02d-%02d" % (rng.randint(2019, 2030), rng.randint(1, 12), rng.randint(1, 28))
+                    feats.add("date_only_first_line")
                 elif r < 0.27:
                     lines[i] = pre + rng.choice(["1234567890 is my phone", "2024x01y01 odd", "P5 is a priority word", "o x P1 words", "2024-13-45 not a date"]) + " " + body
                     feats.add("lookalike_first_word")
+            # an existing ZID of the long form (three-character suffix, handed out after `zz`): it already is the note's ZID
+            m3 = re.match(r"^([-ox~<>](?: P\d)? (?:\d{6} )?\d{6}#\w\w)( .*)$", ln)
+            if m3 and i > 1 and rng.random() < 0.08:
+                lines[i] = m3.group(1) + rng.choice("0AZaz9") + m3.group(2)
+                feats.add("three_char_zid")
         out[rel] = "\n".join(lines)
     return out
 
@@ -136,9 +145,9 @@ def check_dir(ctx, res, zdir, cfg, files, feats):
             ok = False
             if m:
                 pre, rest = m.group(1), m.group(2)
-                rest2 = re.sub(r"^\d{4}-\d{2}-\d{2} ", "", rest)
+                rest2 = re.sub(r"^\d{4}-\d{2}-\d{2}( |$)", "", rest)  # the create date may be the only word of the line
                 mm = re.match(r"^" + re.escape(pre) + r"(\d{6}#[0-9A-Za-z]{2,3}) (.*)$", n)
-                ok = bool(mm) and mm.group(2) in (rest, rest2, rest.lstrip(' '), rest2.lstrip(' '), re.sub(r'^\d{4}-\d{2}-\d{2} ', '', rest.lstrip(' ')))
+                ok = bool(mm) and mm.group(2) in (rest, rest2, rest.lstrip(' '), rest2.lstrip(' '), re.sub(r'^\d{4}-\d{2}-\d{2}( |$)', '', rest.lstrip(' ')))
             if not ok:
                 res.failures.append(C.Failure(f"{rel} line {i + 1}: changed other than by inserting a ZID after the prefix: {o!r} -> {n!r}", {**case, "kind": "diff", "page": rel, "line": i + 1, "old": o, "new": n}))
                 return
